@@ -5,6 +5,9 @@ import XrsVerif.Model.Index
 import XrsVerif.Gen.Overlap
 import XrsVerif.Gen.Blocks
 import XrsVerif.Gen.Reductions
+import XrsVerif.Gen.Focal
+import XrsVerif.Gen.Effects
+import XrsVerif.Proofs.Effects
 import Mathlib.Algebra.Order.Field.Rat
 /-
   C01 -- Dask-backed rasters give the NumPy result for every chunking and scheduler.
@@ -17,7 +20,10 @@ import Mathlib.Algebra.Order.Field.Rat
 
   Statements are over `NV K` (NaN or an element of any ordered field), so "bit-identical" reads
   "the same expression tree on the same window"; rounding of re-ordered global mean/std is outside
-  (the property grants it).  Scheduler independence: see `Core/Dataflow.lean` (`schedule_independent`).
+  (the property grants it).  Scheduler independence: `Core/Dataflow.lean` (`schedule_independent`) for
+  graphs of *pure* tasks; that every function this library hands to dask *is* pure -- writes no shared
+  state, reads none that anybody writes -- is decided on the generated effect summaries
+  (`Gen/Effects.lean`, section 6: `all_block_functions_pure`).
 -/
 set_option linter.unusedSectionVars false
 set_option linter.unusedVariables false
@@ -65,11 +71,11 @@ theorem curvature_edge_strict : EdgeStrict K curvature_cpu := by
   intro env vec rd h
   rcases h with h | h | h | h <;> ksimp [curvature_cpu, h]
 
-/-- the generated Dask wiring of the three kernels: NaN boundary, depth ≥ 1, same kernel on blocks
-    and on the whole raster, nothing eager -/
+/-- the generated Dask wiring of the three kernels: one `map_overlap` (outside any loop), NaN boundary,
+    depth ≥ 1, same kernel on blocks and on the whole raster, nothing eager -/
 theorem stencil_wiring_ok :
     [slope_overlap, aspect_overlap, curvature_overlap, hillshade_overlap, mean_overlap].all (fun f =>
-      f.ok && f.boundaryNaN && decide (1 ≤ (f.depth 3 3).1) && decide (1 ≤ (f.depth 3 3).2) &&
+      f.ok && f.once && f.boundaryNaN && decide (1 ≤ (f.depth 3 3).1) && decide (1 ≤ (f.depth 3 3).2) &&
       (f.blockFunc == f.numpyFunc || f.numpyCalls.contains f.blockFunc) && f.eager.isEmpty) = true := by
   decide
 
@@ -112,7 +118,7 @@ theorem convolve_depth_covers_radius (kr kc : Nat) :
 
 theorem kernel_shaped_wiring_ok :
     [apply_overlap, convolve_overlap, hotspots_overlap].all (fun f =>
-      f.ok && f.boundaryNaN && (f.blockFunc == f.numpyFunc || f.numpyCalls.contains f.blockFunc)
+      f.ok && f.once && f.boundaryNaN && (f.blockFunc == f.numpyFunc || f.numpyCalls.contains f.blockFunc)
         && f.eager.isEmpty) = true := by
   decide
 
@@ -146,16 +152,62 @@ theorem convolve_dask_eq_spec {α β : Type} (fill : α) (dflt : β) (kr kc : Na
     (convolve_depth_covers_radius kr kc).1 (convolve_depth_covers_radius kr kc).2
     rch cch g hrs hcs i j hi hi' hj hj'
 
-/-- focal `mean` with `passes`: every pass is a fresh `map_overlap` with the generated depth; for
-    any 3x3 cell function (radius 1, no loop margin, as `_mean_numpy`) the chunked iteration equals
-    the iterated whole-raster specification after **any number of passes**, for every chunking -/
-theorem mean_passes {α : Type} (fill dflt : α) (k : (Int → Int → α) → α) (f : Grid α → Grid α)
-    (hk : WindowLocal 1 1 k) (hf : IsStencil 0 0 k f)
+/-! ### focal `mean` with `passes`
+
+  `mean(agg, passes)` can reach dask in two shapes: `passes` successive `map_overlap`s of the one-pass
+  kernel (`passesChunked`: every pass gets a fresh halo of the previous pass's *result*), or one
+  `map_overlap` whose block function runs all the passes on its block (`passesFused`).  Which one the
+  code has is read from the source on every run:
+    * `Gen.Focal.mean_iterates_passes` / `mean_passes_fact.loopInPublic` -- the `for _ in range(passes)`
+      loop is in `mean()` and feeds `_mean`'s result back;
+    * `mean_passes_fact.dispatchOnce` -- `_mean` calls the backend function once per call, no loop;
+    * `mean_overlap.once`, `mean_overlap.blockFunc == mean_overlap.numpyFunc` -- the Dask backend function
+      holds exactly one `map_overlap` and what it maps is the one-pass kernel itself, not a wrapper. -/
+
+/-- "the passes loop is outside `map_overlap`" -- all generated -/
+def meanPassesOutside : Bool :=
+  Focal.mean_iterates_passes && mean_passes_fact.loopInPublic && mean_passes_fact.dispatchOnce &&
+    mean_overlap.ok && mean_overlap.once && (mean_overlap.blockFunc == mean_overlap.numpyFunc)
+
+/-- the Dask path of `focal.mean(agg, passes)` for a one-pass block function `f`, as the generated
+    facts describe it -/
+def meanDask {α : Type} (fill dflt : α) (f : Grid α → Grid α) (rch cch : List Nat) (passes : Nat)
+    (g : Grid α) : Grid α :=
+  if meanPassesOutside then
+    passesChunked fill dflt (mean_overlap.depth 3 3).1 (mean_overlap.depth 3 3).2 f rch cch passes g
+  else
+    passesFused fill dflt (mean_overlap.depth 3 3).1 (mean_overlap.depth 3 3).2 f rch cch passes g
+
+theorem mean_passes_outside_overlap : meanPassesOutside = true := by decide
+
+/-- **multi-pass mean, every chunking**: for any 3x3 cell function `k` (radius 1) and any block function
+    `f` that computes `k` wherever the whole 3x3 window lies inside the block (`IsStencil 1 1`: what
+    `_mean_numpy`, which clips its window at the *block* edge, does), `passes` iterations of
+    (map_overlap depth 1 ∘ one-pass kernel) equal `passes` iterations of the whole-raster one-pass
+    specification -- for **any number of passes** and every chunking (1-cell chunks included).
+    Proof: the halo theorem, iterated (`passes_eq_spec`). -/
+theorem mean_dask_passes {α : Type} (fill dflt : α) (k : (Int → Int → α) → α) (f : Grid α → Grid α)
+    (hk : WindowLocal 1 1 k) (hf : IsStencil 1 1 k f)
     (rch cch : List Nat) (g : Grid α) (hrs : rch.sum = g.h) (hcs : cch.sum = g.w) (passes : Nat) :
-    (passesChunked fill dflt (mean_overlap.depth 3 3).1 (mean_overlap.depth 3 3).2 f rch cch passes g).EqOn
-      (passesSpec fill k passes g) :=
-  passes_eq_spec fill dflt _ _ 0 0 k f (hk.mono (by decide) (by decide)) hf (Nat.zero_le _) (Nat.zero_le _)
+    (meanDask fill dflt f rch cch passes g).EqOn (passesSpec fill k passes g) := by
+  simp only [meanDask, mean_passes_outside_overlap, if_true]
+  exact passes_eq_spec fill dflt _ _ 1 1 k f (hk.mono (by decide) (by decide)) hf (by decide) (by decide)
     rch cch g hrs hcs passes
+
+/-- hence the result after `passes` passes does not depend on the chunking -/
+theorem mean_passes_chunking_irrelevant {α : Type} (fill dflt : α) (k : (Int → Int → α) → α) (f : Grid α → Grid α)
+    (hk : WindowLocal 1 1 k) (hf : IsStencil 1 1 k f)
+    (rch cch rch' cch' : List Nat) (g : Grid α) (hrs : rch.sum = g.h) (hcs : cch.sum = g.w)
+    (hrs' : rch'.sum = g.h) (hcs' : cch'.sum = g.w) (passes : Nat)
+    (i j : Int) (hi : 0 ≤ i) (hi' : i < g.h) (hj : 0 ≤ j) (hj' : j < g.w) :
+    (meanDask fill dflt f rch cch passes g).cell i j = (meanDask fill dflt f rch' cch' passes g).cell i j := by
+  have h1 := mean_dask_passes fill dflt k f hk hf rch cch g hrs hcs passes
+  have h2 := mean_dask_passes fill dflt k f hk hf rch' cch' g hrs' hcs' passes
+  have e1 := h1.2.2 i j hi (by rw [h1.1, (passesSpec_dims fill k passes g).1]; exact hi') hj
+    (by rw [h1.2.1, (passesSpec_dims fill k passes g).2]; exact hj')
+  have e2 := h2.2.2 i j hi (by rw [h2.1, (passesSpec_dims fill k passes g).1]; exact hi') hj
+    (by rw [h2.2.1, (passesSpec_dims fill k passes g).2]; exact hj')
+  rw [e1, e2]
 
 /-! ## 4. per-cell operations mapped over blocks: spectral indices, binary, hotspots classes,
        true_color bands -- `map_blocks` over any chunking is the kernel on the whole raster -/
@@ -262,6 +314,61 @@ theorem sum_blocks (blocks : List (List K)) :
   computed gets its denotation -- so two runs under different schedulers / worker counts agree on
   every block they both produce, and two complete runs produce the same raster. -/
 
+open XrsVerif.Effects in
+/-- a function handed to dask is *pure* when its generated effect summary writes no shared cell at all
+    (`confined []`: no `np.random.seed`, no draw from the global RNG, no mutation of a module table or
+    of a mutable default) and reads only cells nobody in the library writes (`noStale volatile []`:
+    a constant such as `aspect.RADIAN` is fine, the global RNG is not) -/
+def taskPure (σ : Effects.Summary) : Bool :=
+  confined [] σ.prog && noStale Gen.volatile [] σ.prog
+
+/-- the block functions of this property's operations, by qualified name: the `map_overlap` sites, the
+    `map_blocks` sites, the spectral-index kernels -/
+def blockFunctions : List String :=
+  allOverlapFacts.map (·.blockQual) ++ allBlocksFacts.map (·.blockQual) ++ allIndexWirings.map (·.kernel.name)
+
+/-- **purity of everything handed to dask** (generated, re-decided on every run): every block function
+    above has an effect summary among `Gen.taskSummaries` (so it was resolved to a function of /repo:
+    not a lambda, not a wrapper defined on the spot), every task function of the library is pure, and
+    no task expression of these modules is left unresolved.  A block function that seeds / draws from
+    the process-global RNG (a permutation table built inside the task) makes this false. -/
+theorem all_block_functions_pure :
+    (blockFunctions.all fun n => Gen.taskSummaries.any fun σ => σ.name == n) = true ∧
+    Gen.taskSummaries.all taskPure = true := by
+  constructor <;> decide +kernel
+
+open XrsVerif.Effects in
+/-- what purity buys: run every task `i` of a graph as the library function `σ i` (any of the generated
+    task summaries), against whatever state `hist i` the process-global cells are in when a worker
+    thread picks the task up -- any sequence of library calls (other tasks, other public calls: they
+    may write the volatile cells) completed before.  Two executions under different schedules,
+    worker counts and interleavings agree on every value they compute. -/
+theorem pure_tasks_any_schedule {V R : Type} [Inhabited V] (cells : Cell → V)
+    (deps : Nat → List Nat) (deps_lt : ∀ i j, j ∈ deps i → j < i)
+    (σ : Nat → Summary) (hσ : ∀ i, σ i ∈ Gen.taskSummaries)
+    (sem : Nat → Sem (String → V) V R) (args : Nat → List R → String → V)
+    (hist₁ hist₂ : Nat → List (Call (String → V) V R))
+    (hh₁ : ∀ i, ∀ p ∈ hist₁ i, confined Gen.volatile p.prog = true)
+    (hh₂ : ∀ i, ∀ p ∈ hist₂ i, confined Gen.volatile p.prog = true)
+    (s₁ s₂ : List (List Nat)) (i : Nat) (v w : R)
+    (h₁ : DF.run ⟨deps, fun i ins => (step (runHist (Lib.fresh cells) (hist₁ i)) ((σ i).call (sem i) (args i ins))).2,
+            deps_lt⟩ s₁ (fun _ => none) i = some v)
+    (h₂ : DF.run ⟨deps, fun i ins => (step (runHist (Lib.fresh cells) (hist₂ i)) ((σ i).call (sem i) (args i ins))).2,
+            deps_lt⟩ s₂ (fun _ => none) i = some w) : v = w := by
+  have hp : ∀ i, noStale Gen.volatile [] (σ i).prog = true := by
+    intro i
+    have := (List.all_eq_true.mp all_block_functions_pure.2) (σ i) (hσ i)
+    simp only [taskPure, Bool.and_eq_true] at this
+    exact this.2
+  have e : (fun i ins => (step (runHist (Lib.fresh cells) (hist₁ i)) ((σ i).call (sem i) (args i ins))).2) =
+      (fun i ins => (step (runHist (Lib.fresh cells) (hist₂ i)) ((σ i).call (sem i) (args i ins))).2) := by
+    funext i ins
+    exact step_result_eq Gen.volatile cells _ _ _ (hp i)
+      (runHist_inv Gen.volatile cells (hist₁ i) _ (hh₁ i) (fresh_inv Gen.volatile cells))
+      (runHist_inv Gen.volatile cells (hist₂ i) _ (hh₂ i) (fresh_inv Gen.volatile cells))
+  rw [e] at h₁
+  exact DF.schedule_independent _ s₁ s₂ i v w h₁ h₂
+
 theorem any_schedule_same_result {V : Type} (g : DF.Graph V) (s1 s2 : List (List Nat)) (i : Nat) (v w : V)
     (h1 : DF.run g s1 (fun _ => none) i = some v) (h2 : DF.run g s2 (fun _ => none) i = some w) : v = w :=
   DF.schedule_independent g s1 s2 i v w h1 h2
@@ -278,5 +385,45 @@ instance : Trig ℚ := ⟨id, id, fun a _ => a, id, id, id, id⟩
 example : ([1, 1, 1] : List Nat).sum = 3 := by decide
 example : nmax (some (3 : ℚ)) (nmax none none) = some 3 := rfl
 example : (apply_radius 5 3, apply_overlap.depth 5 3) = ((2, 1), (2, 1)) := by decide
+
+/-- a concrete 3x3 cell function (the window sum) and a block function that computes it with the
+    window clipped at the *block* edge, as `_mean_numpy` does -/
+def sumK (w : Int → Int → Int) : Int :=
+  w (-1) (-1) + w (-1) 0 + w (-1) 1 + w 0 (-1) + w 0 0 + w 0 1 + w 1 (-1) + w 1 0 + w 1 1
+def sumBlock (g : Grid Int) : Grid Int :=
+  { h := g.h, w := g.w, cell := fun i j => sumK (fun a b => g.get 0 (i + a) (j + b)) }
+def col12 : Grid Int := { h := 2, w := 1, cell := fun i _ => if i = 0 then 1 else 2 }
+
+/-- they satisfy the hypotheses of `mean_dask_passes` -/
+example : WindowLocal 1 1 sumK := by
+  intro w1 w2 h
+  simp only [sumK]
+  rw [h (-1) (-1), h (-1) 0, h (-1) 1, h 0 (-1), h 0 0, h 0 1, h 1 (-1), h 1 0, h 1 1] <;> decide
+example : IsStencil 1 1 sumK sumBlock := by
+  intro g i j h1 h2 h3 h4
+  simp only [sumBlock, sumK, Grid.get]
+  rw [if_pos (by omega), if_pos (by omega), if_pos (by omega), if_pos (by omega), if_pos (by omega),
+      if_pos (by omega), if_pos (by omega), if_pos (by omega), if_pos (by omega)]
+/-- the fact is needed: with the two passes *inside* one `map_overlap` of depth 1 (the shape
+    `meanPassesOutside = false` stands for) the column [1, 2] split into two 1-cell chunks gives 21 at the
+    top cell (the halo cells -- fill outside the raster included -- have been run through pass 1 as if they were
+    data), the iterated whole-raster computation 6; with the passes outside (what the theorem is
+    about) the chunked computation gives 6 -/
+example : (passesFused 0 0 1 1 sumBlock [1, 1] [1] 2 col12).cell 0 0 = 21 ∧
+    (passesSpec 0 sumK 2 col12).cell 0 0 = 6 ∧
+    (passesChunked 0 0 1 1 sumBlock [1, 1] [1] 2 col12).cell 0 0 = 6 := by decide +kernel
+
+/-- purity rejects something real: a task function that seeds and draws from the global RNG -/
+def seedingTask : Effects.Summary := {
+  name := "perlin._perlin_block"
+  isPublic := false
+  prog := .op (.seed .rng) (.op (.draw .rng) .nil)
+  deps := ["x", "y", "seed"]
+  tasks := []
+  kernels := []
+}
+example : taskPure seedingTask = false := by decide
+example : Gen.summary_focal__mean_numpy ∈ Gen.taskSummaries ∧ taskPure Gen.summary_aspect__run_numpy = true := by
+  constructor <;> decide +kernel
 
 end XrsVerif.C01
